@@ -37,7 +37,7 @@ def new_handlers(regions=(), g90e=False, enter=None, exit_=None, ext=None, at=No
     return GcodeHandlers(st, LOG)
 
 _CODE = re.compile(r'^\s*([GMT]\d+)(?:\.(\d+))?')  # as octoprint.util.comm.gcode_and_subcode_for_cmd
-def code_of(cmd, normalise=True):
+def code_of(cmd, normalise=False):      # the host passes the code as written (OctoPrint: "G01" stays "G01")
     m = _CODE.match(cmd)
     if not m: return None, None
     g = m.group(1)
@@ -49,7 +49,7 @@ class Comm(object):
     def isStreaming(self): return self.streaming
     def sendCommand(self, c, **kw): self.sent.append(c)
 
-def step(h, line, comm=None, normalise=True):
+def step(h, line, comm=None, normalise=False):
     """One hook invocation.  Returns ('unchanged'|'suppress'|'replace'|'at', payload)."""
     if line.startswith('@'):
         comm = comm or Comm()
